@@ -47,6 +47,9 @@ def check(ctx):
     from .c02 import _r4_templates
     _r4_templates(ctx, rule_decode="R3", rule_omit="R2")
     _r4(ctx)
+    # who stores into the matrix, and at which index expression (per-system offset of the batched CSR block): shared with C02.R7
+    from .c02 import jac_writers
+    jac_writers(ctx, "R6")
 
 
 # ------------------------------------------------------------------ R1
@@ -514,6 +517,7 @@ def _split_args(code, i):
 
 T = FILE
 MUTANTS = [
+    {"name": "cusparse-kernel-drops-system-offset", "file": "naunet/templates/cvode/src/naunet_jac.cpp.j2", "old": "data[jistart + ", "new": "data[", "rules": ["R6"]},
     {"name": "rowptr-after-columns", "file": T, "old": "            spjacrptr.append(nnz)\n            for col in range(n_eqns):\n                elem = jacrhs[row * n_eqns + col]\n                if elem != \"0.0\":\n                    spjaccval.append(col)\n                    spjacdata.append(f\"{elem}\")\n                    nnz += 1\n",
      "new": "            for col in range(n_eqns):\n                elem = jacrhs[row * n_eqns + col]\n                if elem != \"0.0\":\n                    spjaccval.append(col)\n                    spjacdata.append(f\"{elem}\")\n                    nnz += 1\n            spjacrptr.append(nnz)\n", "rules": ["R1"]},
     {"name": "col-range-short", "file": T, "old": "            for col in range(n_eqns):\n                elem = jacrhs", "new": "            for col in range(n_eqns - 1):\n                elem = jacrhs", "rules": ["R1"]},
